@@ -743,6 +743,8 @@ pub struct St<K: CKind> {
 }
 
 pub const NV: u32 = 3;
+/// number of variables of the managers `St::new` creates (3 everywhere except in the `few` shards)
+static NVARS: std::sync::atomic::AtomicU32 = std::sync::atomic::AtomicU32::new(NV);
 
 /// `big` shards: node store above the 65536-node threshold of the index backend and two workers
 /// (worker threads keep private node counters / free lists)
@@ -789,14 +791,21 @@ impl<K: CKind> St<K> {
         };
         core.log(format!("m = {}({cap}, {cache}, {threads})", core.cname("manager_new")));
         core.post(ctx, "manager_new");
-        let r = unsafe { (api.manager_add_vars)(cm, NV) };
-        let tr = core.tm.with_manager_exclusive(|m| m.add_vars(NV));
-        core.log(format!("{}(m, {NV})", core.cname("manager_add_vars")));
+        let nv = NVARS.load(Ordering::Relaxed);
+        let r = unsafe { (api.manager_add_vars)(cm, nv) };
+        let tr = core.tm.with_manager_exclusive(|m| m.add_vars(nv));
+        core.log(format!("{}(m, {nv})", core.cname("manager_add_vars")));
         if (r.start, r.end) != (tr.start, tr.end) {
             core.viol(ctx, "manager_add_vars", "wrong_value", &format!("returned {r:?}, Rust API {tr:?}"));
         }
         core.post(ctx, "manager_add_vars");
-        let (o0, o1) = if K::ZB { (Op::Var(0), Op::Singleton(1)) } else { (Op::Var(0), Op::Var(1)) };
+        let (o0, o1) = match nv {
+            // `few` shards: managers with no or one variable
+            0 => (Op::False, Op::True),
+            1 => (Op::Var(0), Op::True),
+            _ if K::ZB => (Op::Var(0), Op::Singleton(1)),
+            _ => (Op::Var(0), Op::Var(1)),
+        };
         let s0 = core.fcall(ctx, &o0, &[]);
         let mut s1 = core.fcall(ctx, &o1, &[]);
         if BIG.load(Ordering::Relaxed) {
@@ -1480,6 +1489,8 @@ pub fn shards(tier: &str) -> Vec<String> {
             v.push(format!("{k}:tiny{c}"));
         }
         v.push(format!("{k}:orders"));
+        v.push(format!("{k}:few0"));
+        v.push(format!("{k}:few1"));
     }
     v
 }
@@ -1506,6 +1517,14 @@ pub fn run(ctx: &mut Ctx) {
         }
         _ => rest.to_string(),
     };
+    if let Some(k) = rest.strip_prefix("few") {
+        NVARS.store(k.parse().unwrap(), Ordering::Relaxed);
+        return match k {
+            "bdd" => few_group::<Bdd>(ctx),
+            "bcdd" => few_group::<Bcdd>(ctx),
+            _ => few_group::<Zbdd>(ctx),
+        };
+    }
     if rest == "orders" {
         match k {
             "bdd" => orders_group::<Bdd>(ctx),
@@ -2497,6 +2516,25 @@ fn sweep_vars<K: CKind>(ctx: &mut Ctx, st: &mut St<K>, va: &Val<K>, vb: &Val<K>)
     }
 }
 
+/// Managers with no variable / one variable: the satisfying-assignment query on the constants (and the
+/// variable), compared with the Rust API (an empty assignment is not "unsatisfiable")
+fn few_group<K: CKind>(ctx: &mut Ctx) {
+    ctx.group("managers with fewer than two variables", |ctx| {
+        ctx.count("executions", 1);
+        let mut st = St::<K>::new(ctx);
+        for i in 0..2 {
+            let v = st.src(S(i));
+            if v.valid() {
+                st.pick_cube(ctx, &v);
+                ctx.count("transitions", 1);
+                ctx.count("nontrivial", 1);
+            }
+        }
+        st.finish(ctx);
+        flush_releases();
+    });
+}
+
 /// Every ordered pair of reordering requests (all sequences of 0..3 distinct variables, i.e. partial
 /// and total orders) issued one after the other through the C API and on the twin, with the two
 /// initial handles alive; after each request the level maps, the handles and a few new functions
@@ -2552,6 +2590,23 @@ fn orders_group<K: CKind>(ctx: &mut Ctx) {
                     let op = if K::ZB { Op::Union } else { Op::Bin(BinOp::Xor) };
                     let a = core.fcall(ctx, &op, &[&slots[0], &slots[2]]);
                     let b = core.fcall(ctx, &op, &[&a, &slots[1]]);
+                    if !K::ZB {
+                        // every single-variable substitution into the two new functions under the new order
+                        for var in 0..NV {
+                            for j in 0..3 {
+                                let r = st.src(S(j));
+                                if !r.valid() || st.core.failed {
+                                    continue;
+                                }
+                                for f in [&a, &b] {
+                                    let v = st.substitute(ctx, f, &[(var, &r)]);
+                                    st.core.release(ctx, v);
+                                    ctx.count("transitions", 1);
+                                }
+                            }
+                        }
+                    }
+                    let core = &mut st.core;
                     core.release(ctx, a);
                     core.release(ctx, b);
                     ctx.count("nontrivial", 1);
